@@ -527,6 +527,7 @@ class Interp:
         self.steps = 0
         self._inline_stack: list[int] = []
         self._inline_names: list[str] = []
+        self._in_trial = False
         self.raise_paths: dict[tuple[str, str], tuple[str, ...]] = {}
         self.on_call: Callable[[ast.Call, Func, dict[str, AV], State, Func], None] | None = None
         self.on_store: Callable[[ast.Attribute, ast.stmt, AV, State, Func], None] | None = None
@@ -534,6 +535,7 @@ class Interp:
         self.hooks_all_depths = False
         self.follow_callables = False  # inline calls through closure / function values (pattern-builder abstract execution)
         self.on_callable: Callable[..., None] | None = None
+        self.on_fstring: Callable[..., None] | None = None  # (FormattedValue node, operand value, state, fn)
         self.on_field_write: Callable[..., None] | None = None  # (base value, mangled attr, stored value, state, fn, node) at every depth
         self.track_pc = False  # record the branch decisions of the entry function in state key "\u00a7pc"
         self.track_eq = False  # remember `term == const` facts and reuse them for syntactically equal terms
@@ -689,6 +691,10 @@ class Interp:
             t = self.R.type_of(e, self.R.scope(fn))
             return self._default_for_type(t)
         if isinstance(e, ast.JoinedStr):
+            if self.on_fstring is not None:
+                for part in e.values:
+                    if isinstance(part, ast.FormattedValue):
+                        self.on_fstring(part, self.ev(part.value, st, fn, depth), st, fn)
             return ConstV("<str>")
         if isinstance(e, ast.Lambda):
             lf = M.func_of_node.get(id(e))
@@ -1819,6 +1825,10 @@ class Interp:
                     return []
                 if isinstance(s, ast.Match):
                     return interp._match(self2, s, st, ex, f, depth)
+                if isinstance(s, ast.FunctionDef) and interp.follow_callables:
+                    nf = interp.M.func_of_node.get(id(s))
+                    if nf is not None:
+                        return [st.set(s.name, NN("callable", nf, (st, f)))]
                 return PathWalker.stmt(self2, s, st, ex)
 
         def on_stmt(s: ast.stmt, st: State):
@@ -1898,6 +1908,7 @@ class Interp:
             if k in keys or any(k.startswith(x + ".") for x in keys):
                 d[k] = TOPINT if isinstance(v, Iv) else TOP
         hav = State(d)
+        hav = self._loop_invariant(w, s, st, hav, keys, f, depth)
         sub = Exits()
         if isinstance(s, ast.While):
             inb = self.assume(s.test, hav, f, True, depth)
@@ -1937,6 +1948,69 @@ class Interp:
         if s.orelse:
             exits = w.block(s.orelse, exits, ex)
         return exits
+
+    def _loop_invariant(self, w: PathWalker, s: ast.While | ast.For, st: State, hav: State, keys: set[str], f: Func, depth: int) -> State:
+        """Strengthen the havocked loop state with interval bounds that are inductive: a candidate bound taken from the entry
+        state (lower bound 0 for non-negative entries, the entry's finite upper bound) is kept when one abstract execution of
+        the body from the candidate state re-establishes it.  The trial run records nothing."""
+        if not isinstance(s, ast.While) or self._in_trial:
+            return hav
+        cand: dict[str, list[float]] = {}
+        for k in keys:
+            v = st.get(k)
+            if isinstance(v, Iv) and isinstance(hav.get(k), Iv):
+                lo = 0.0 if v.lo >= 0 else -INF
+                hi = v.hi if v.hi != INF else INF
+                if lo != -INF or hi != INF:
+                    cand[k] = [lo, hi]
+        if not cand:
+            return hav
+        saved = (len(self.raise_log), len(self.obligations), len(self.opaque_log), self.on_call, self.on_store, self.on_field_write, self.on_fstring, self.on_binop, self.on_builtin, self.on_return, self.on_callable, dict(self.raise_paths))
+        self.on_call = self.on_store = self.on_field_write = self.on_fstring = self.on_binop = self.on_builtin = self.on_return = self.on_callable = None
+        self._in_trial = True
+        try:
+            for _ in range(3):
+                d = dict(hav.d)
+                for k, (lo, hi) in cand.items():
+                    d[k] = Iv(lo, hi, False)
+                trial = State(d)
+                sub = Exits()
+                try:
+                    ends = w.block(s.body, self.assume(s.test, trial, f, True, depth), sub)
+                except Budget:
+                    return hav
+                ends = list(ends) + list(sub.continues)
+                bad = False
+                for k in list(cand):
+                    lo, hi = cand[k]
+                    for e in ends:
+                        v = e.get(k)
+                        x = v if isinstance(v, Iv) else None
+                        if x is None or x.lo < lo:
+                            if lo != -INF:
+                                cand[k][0] = -INF
+                                bad = True
+                        if x is None or x.hi > hi:
+                            if hi != INF:
+                                cand[k][1] = INF
+                                bad = True
+                    if cand[k] == [-INF, INF]:
+                        del cand[k]
+                if not bad:
+                    d = dict(hav.d)
+                    for k, (lo, hi) in cand.items():
+                        d[k] = Iv(lo, hi, False)
+                    return State(d)
+                if not cand:
+                    return hav
+            return hav
+        finally:
+            self._in_trial = False
+            del self.raise_log[saved[0]:]
+            del self.obligations[saved[1]:]
+            del self.opaque_log[saved[2]:]
+            (self.on_call, self.on_store, self.on_field_write, self.on_fstring, self.on_binop, self.on_builtin, self.on_return, self.on_callable) = saved[3:11]
+            self.raise_paths = saved[11]
 
     def _match(self, w: PathWalker, s: ast.Match, st: State, ex: Exits, f: Func, depth: int) -> list[State]:
         subj = self.ev(s.subject, st, f, depth)
